@@ -32,6 +32,12 @@ Definition cmp_sem (o : bop) (x c : Z) : bool :=
   | BEq => x =? c | BNe => negb (x =? c) | BGt => x >? c | BLt => x <? c | BGe => x >=? c | BLe => x <=? c
   end.
 
+(* Python values of conditions: a bool or an integer *)
+Inductive val := VB (b : bool) | VI (z : Z).
+Definition truthy (v : val) : bool := match v with VB b => b | VI z => negb (z =? 0) end.
+Definition val_eqb (a b : val) : bool :=
+  match a, b with VB x, VB y => Bool.eqb x y | VI x, VI y => x =? y | _, _ => false end.
+
 Fixpoint eval (rho : nat -> Z) (sigma : nat -> bool) (o : operand) : bool :=
   match o with
   | OCmp k op c fl => if fl then cmp_sem op c (rho k) else cmp_sem op (rho k) c
@@ -252,6 +258,42 @@ Definition simplify (isand : bool) (vs : list operand) : result :=
       else if any && negb (Nat.eqb (length values) (length vs)) then RValues values
       else const_section isand vs.
 
+(* ---------------- value context (symbolic_math._is_boolean_valued / _truth_tested_nodes) ---------------- *)
+(* the VALUE of an operand: `and` / `or` evaluate to the deciding operand, `not` and comparisons to
+   a bool; [OVar i] is any other expression (a name, a call ...), whose value tau i is arbitrary *)
+Fixpoint opval (rho : nat -> Z) (tau : nat -> val) (o : operand) : val :=
+  match o with
+  | OCmp k op c fl => VB (if fl then cmp_sem op c (rho k) else cmp_sem op (rho k) c)
+  | OVar i => tau i
+  | OConst b => VB b
+  | ONot o' => VB (negb (truthy (opval rho tau o')))
+  | OBool isand vs =>
+      (fix go (l : list operand) : val :=
+         match l with
+         | [] => VB isand
+         | v :: tl =>
+             match tl with
+             | [] => opval rho tau v
+             | _ => let x := opval rho tau v in if Bool.eqb (truthy x) isand then go tl else x
+             end
+         end) vs
+  end.
+
+(* _is_boolean_valued: Compare, not, True/False, and/or of such *)
+Fixpoint bool_valued (o : operand) : bool :=
+  match o with
+  | OCmp _ _ _ _ | OConst _ | ONot _ => true
+  | OVar _ => false
+  | OBool _ vs => (fix go (l : list operand) : bool :=
+                     match l with [] => true | v :: tl => bool_valued v && go tl end) vs
+  end.
+
+(* the BoolOp loop of simplify_boolean_expressions after the value-context repair: a node is only
+   rewritten when just its truth value is used ([truth_ctx]: it is a test, an operand of `not`, an
+   unused expression statement, or an operand of such a BoolOp) or when it is boolean valued *)
+Definition simplify_ctx (truth_ctx isand : bool) (vs : list operand) : result :=
+  if truth_ctx || bool_valued (OBool isand vs) then simplify isand vs else RNone.
+
 (* ---------------- correspondence plumbing ---------------- *)
 Fixpoint operands_eqb (a b : list operand) : bool :=
   match a, b with
@@ -268,6 +310,11 @@ Definition result_eqb (a b : result) : bool :=
   | _, _ => false
   end.
 
-Record bound_case := mkBCase { bc_isand : bool; bc_values : list operand; bc_expected : result }.
+Record bound_case := mkBCase { bc_ctx : bool; bc_isand : bool; bc_values : list operand; bc_expected : result }.
 Definition bound_case_ok (c : bound_case) : bool :=
-  result_eqb (simplify (bc_isand c) (bc_values c)) (bc_expected c).
+  result_eqb (simplify_ctx (bc_ctx c) (bc_isand c) (bc_values c)) (bc_expected c).
+
+(* validation of [opval] against CPython: x = rho 0, y = rho 1, p_i = tau i *)
+Definition opval_case_ok (c : operand * list Z * list val * val) : bool :=
+  let '(o, xs, ps, v) := c in
+  val_eqb (opval (fun k => nth k xs 0) (fun i => nth i ps (VI 0)) o) v.
